@@ -63,7 +63,13 @@ func (v *vigil) BeginVigil() {
 }
 
 func (v *vigil) CeaseVigil() {
+	// The decrement must not land between a waiter's emptiness check and its
+	// cond.Wait(): the waiter holds cond.L across both, so taking the same lock
+	// here orders the decrement (and the broadcast after it) either before the
+	// check or after the waiter is registered on the condition variable.
+	v.cond.L.Lock()
 	atomic.AddInt64(&v.vigils, -1)
+	v.cond.L.Unlock()
 	v.cond.Broadcast()
 }
 
